@@ -122,7 +122,9 @@ func lockKeyExtraction(c *q.Ctx) {
 	ek := c.Fn(ut + "(*SpinLock).ExtractLockKeys")
 	if ek != nil {
 		c.Effect(ek, q.Eff{Spec: "delete", Arg: 0, Glob: "newmap<map[string]bool>", Req: []q.Cond{{Canon: "(\"$transient\" == p1.TxOutputsExt[].Bucket)", Sense: false}}, Why: "a key that is read and written is locked exclusively only: it leaves the shared set", Rule: "K2"})
+		c.MapStoreKeys(ek, "newmap<map[string]bool>", []string{"*p1.TxInputsExt[].Bucket*p1.TxInputsExt[].Key*", "*p1.TxOutputsExt[].Bucket*p1.TxOutputsExt[].Key*"}, "model keys are locked under bucket and key")
 		c.StoreIs(ek, "LockKey.lockType", "1 OR 2", 4, "inputs, own outputs and written keys exclusive (2); read-only keys shared (1)")
+		c.StoreIs(ek, "LockKey.key", "*p1.TxInputs[].RefTxid*p1.TxInputs[].RefOffset* OR *p1.Txid*#i* OR key(newmap<map[string]bool>)", 4, "the lock names ARE the spent output (ref txid, ref offset), the created output (own txid, position) and the model key (bucket/key): two transactions contend iff they name the same object")
 	}
 }
 
